@@ -88,7 +88,7 @@ class sut(object):
             return False
         if issubclass(et, (KeyboardInterrupt, SystemExit, MemoryError)):
             return False
-        if issubclass(et, HarnessError):
+        if issubclass(et, (HarnessError, Inconclusive)):
             return False
         text = "".join(traceback.format_exception(et, ev, tb))
         raise Violation(
@@ -98,6 +98,10 @@ class sut(object):
 
 class HarnessError(Exception):
     pass
+
+
+class Inconclusive(BaseException):
+    """A time budget was hit: no verdict (never reported as a violation)."""
 
 
 def require(cond, message, details=None):
